@@ -83,4 +83,308 @@ def toSrc (st : IdxState) : SrcState :=
 def absReg (t : Int × Option Int × List (Int × Int)) : Option Int × Option Int × Option (List (Int × Int)) :=
   (t.2.1, some t.1, some t.2.2)
 
+/-! ### small run-time facts -/
+
+@[simp] theorem pyGet_zero_nil {α : Type} : pyGet ([] : List α) 0 = .error .index := by
+  simp [pyGet]
+
+@[simp] theorem pyGet_zero_cons {α : Type} (x : α) (l : List α) : pyGet (x :: l) 0 = .ok x := by
+  simp only [pyGet, List.length_cons]
+  rw [if_neg (by omega), if_neg (by omega)]
+  rfl
+
+/-- `l[-1]` of a non-empty list is its last element -/
+theorem pyGet_neg_one {α : Type} (l : List α) (h : l ≠ []) :
+    ∃ x, l.getLast? = some x ∧ pyGet l (-1) = .ok x := by
+  have hlen : 0 < l.length := List.length_pos_iff.mpr h
+  refine ⟨l.getLast h, List.getLast?_eq_some_getLast h, ?_⟩
+  have hneg : ((-1 : Int) < 0) := by omega
+  simp only [pyGet, hneg, if_true]
+  rw [if_neg (by omega)]
+  have : (-1 + (l.length : Int)).toNat = l.length - 1 := by omega
+  rw [this, List.getLast_eq_getElem, List.getElem?_eq_getElem (by omega)]
+
+@[simp] theorem slice_one_none_cons {α : Type} (x : α) (l : List α) : PyRt.slice (x :: l) (some 1) none = l := by
+  simp [PyRt.slice, PyRt.clampIdx]
+
+/-- `line[:-k]` for `k > 0` -/
+theorem slice_none_neg {α : Type} (l : List α) (k : Int) (hk : 0 < k) :
+    PyRt.slice l none (some (-k)) = l.take (l.length - k.toNat) := by
+  have hneg : -k < 0 := by omega
+  simp only [PyRt.slice, PyRt.clampIdx, List.drop_zero, Nat.sub_zero, hneg, if_true]
+  split
+  · have : l.length - k.toNat = 0 := by omega
+    rw [this]
+  · congr 1; omega
+
+theorem needInt_some (i : Int) : PyRt.needInt (some i) = .ok i := rfl
+theorem needInt_none : PyRt.needInt none = .error .type := rfl
+theorem needObj_some {α : Type} (x : α) : PyRt.needObj (some x) = .ok x := rfl
+theorem needIter_some {α : Type} (x : List α) : PyRt.needIter (some x) = .ok x := rfl
+
+/-- `seq_buffer.write(seq)` with the cursor at the end appends -/
+theorem write_at_end (d x : List Nat) :
+    PyRt.BytesIO.write { data := d, pos := d.length } x = { data := d ++ x, pos := (d ++ x).length } := by
+  simp [PyRt.BytesIO.write]
+
+/-- `seq_buffer.seek(0); seq_buffer.truncate(0)` -/
+theorem seek_truncate (b : PyRt.BytesIO) : (b.seek 0).truncate 0 = { data := [], pos := ([] : List Nat).length } := by
+  simp [PyRt.BytesIO.seek, PyRt.BytesIO.truncate]
+
+theorem dSet_of_none {κ ν : Type} [DecidableEq κ] (d : List (κ × ν)) (k : κ) (v : ν) (h : dGet? d k = none) :
+    dSet d k v = d ++ [(k, v)] := by
+  induction d with
+  | nil => rfl
+  | cons kv d ih =>
+    obtain ⟨k', v'⟩ := kv
+    simp only [dGet?] at h
+    by_cases hk : k' = k
+    · simp [hk] at h
+    · simp only [hk, if_false] at h
+      simp only [dSet, hk, if_false, ih h, List.cons_append]
+
+/-! ### `line[1:].split()[0]` -/
+
+theorem isBWs_eq : PyRt.isBWs = isBSpace := rfl
+
+/-- the model's header token: skip blanks, take non-blanks -/
+def firstTok (l : Bytes) : Bytes := (l.dropWhile isBSpace).takeWhile (fun b => !isBSpace b)
+
+theorem ite_cons_ne_nil {α : Type} (c : Prop) [Decidable c] (a b : α) (x y : List α) :
+    (if c then a :: x else b :: y) ≠ [] := by
+  by_cases h : c
+  · rw [if_pos h]; simp
+  · rw [if_neg h]; simp
+
+theorem bytesSplitWs_cons_nonws (c : Nat) (cs : Bytes) (h : isBSpace c = false) : PyRt.bytesSplitWs (c :: cs) ≠ [] := by
+  simp only [PyRt.bytesSplitWs, isBWs_eq, h, Bool.false_eq_true, if_false]
+  cases PyRt.bytesSplitWs cs with
+  | nil => simp
+  | cons w ws =>
+    apply ite_cons_ne_nil
+
+theorem bytesSplitWs_firstTok (l : Bytes) :
+    (PyRt.bytesSplitWs l = [] ∧ firstTok l = []) ∨ ∃ ws, PyRt.bytesSplitWs l = firstTok l :: ws ∧ firstTok l ≠ [] := by
+  induction l with
+  | nil => left; exact ⟨rfl, rfl⟩
+  | cons c cs ih =>
+    by_cases hc : isBSpace c = true
+    · have h1 : PyRt.bytesSplitWs (c :: cs) = PyRt.bytesSplitWs cs := by
+        simp [PyRt.bytesSplitWs, isBWs_eq, hc]
+      have h2 : firstTok (c :: cs) = firstTok cs := by
+        simp [firstTok, hc]
+      rw [h1, h2]; exact ih
+    · have hc' : isBSpace c = false := by simpa using hc
+      right
+      have h2 : firstTok (c :: cs) = c :: cs.takeWhile (fun b => !isBSpace b) := by
+        simp [firstTok, hc']
+      rw [h2]
+      cases cs with
+      | nil => exact ⟨[], by simp [PyRt.bytesSplitWs, isBWs_eq, hc'], by simp⟩
+      | cons d ds =>
+        by_cases hd : isBSpace d = true
+        · -- the token ends here
+          have htw : (d :: ds).takeWhile (fun b => !isBSpace b) = [] := by simp [hd]
+          rw [htw]
+          rcases ih with ⟨e, _⟩ | ⟨ws, e, _⟩
+          · exact ⟨[], by simp only [PyRt.bytesSplitWs, isBWs_eq, hc', Bool.false_eq_true, if_false] at e ⊢; simp [e], by simp⟩
+          · refine ⟨firstTok (d :: ds) :: ws, ?_, by simp⟩
+            rw [PyRt.bytesSplitWs]
+            simp only [isBWs_eq, hc', Bool.false_eq_true, if_false, e, hd, if_true]
+        · have hd' : isBSpace d = false := by simpa using hd
+          rcases ih with ⟨e, _⟩ | ⟨ws, e, _⟩
+          · exact absurd e (bytesSplitWs_cons_nonws d ds hd')
+          · have hft : firstTok (d :: ds) = (d :: ds).takeWhile (fun b => !isBSpace b) := by
+              simp [firstTok, hd']
+            refine ⟨ws, ?_, by simp⟩
+            rw [PyRt.bytesSplitWs]
+            simp only [isBWs_eq, hc', Bool.false_eq_true, if_false, e, hd', hft]
+
+/-- `line[1:].split()[0]`: IndexError when there is no token, the model's token otherwise -/
+theorem pyGet_split_zero (l : Bytes) :
+    pyGet (PyRt.bytesSplitWs l) 0 = if (firstTok l).isEmpty then .error .index else .ok (firstTok l) := by
+  rcases bytesSplitWs_firstTok l with ⟨e, h⟩ | ⟨ws, e, h⟩
+  · rw [e, h]; rfl
+  · rw [e, pyGet_zero_cons]
+    cases hft : firstTok l with
+    | nil => exact absurd hft h
+    | cons _ _ => rfl
+
+/-- `.decode()` keeps the length -/
+theorem bytesToStr_isEmpty {tok : Bytes} {name : Str} (h : bytesToStr tok = .ok name) : name.isEmpty = tok.isEmpty := by
+  unfold bytesToStr at h
+  split at h
+  · cases h; cases tok <;> rfl
+  · cases h
+
+/-! ### `process_seq_buffer`: the region triple -/
+
+abbrev RegState := Int × Option Int × List (Int × Int)
+
+/-- an open region and all closed ones are non-empty intervals (so `Fragment(name, start + 1, end, 1)` is accepted) -/
+def RegInv (t : RegState) : Prop := (∀ r, t.2.1 = some r → t.1 < r) ∧ ∀ p ∈ t.2.2, p.1 < p.2
+
+theorem mergeRun_inv (L : Int) (t : RegState) (run : Nat × Nat) (h : RegInv t) (hr : run.1 < run.2) :
+    RegInv (mergeRun L t run) := by
+  obtain ⟨rs, re, regs⟩ := t
+  obtain ⟨h1, h2⟩ := h
+  simp only at h1 h2
+  unfold mergeRun
+  simp only
+  split
+  · next heq =>
+    refine ⟨?_, h2⟩
+    intro r hr'
+    simp only [Option.some.injEq] at hr'
+    have := h1 _ heq
+    omega
+  · refine ⟨?_, ?_⟩
+    · intro r hr'
+      simp only [Option.some.injEq] at hr'
+      omega
+    · intro p hp
+      simp only at hp
+      cases re with
+      | none => exact h2 p hp
+      | some r =>
+        simp only at hp
+        split at hp
+        · rcases List.mem_append.mp hp with hp | hp
+          · exact h2 p hp
+          · simp only [List.mem_singleton] at hp
+            subst hp
+            exact h1 r rfl
+        · exact h2 p hp
+
+theorem foldl_mergeRun_inv (L : Int) (runs : List (Nat × Nat)) (hruns : ∀ r ∈ runs, r.1 < r.2) :
+    ∀ t, RegInv t → RegInv (runs.foldl (mergeRun L) t) := by
+  induction runs with
+  | nil => intro t h; exact h
+  | cons r rs ih =>
+    intro t h
+    exact ih (fun x hx => hruns x (List.mem_cons_of_mem _ hx)) _
+      (mergeRun_inv L t r h (hruns r (List.mem_cons_self ..)))
+
+theorem acgtRuns_pos (b : Bytes) : ∀ r ∈ acgtRuns 0 none b, r.1 < r.2 := by
+  intro r hr
+  have h := C04.acgtRuns_shape b 0 none
+  exact ((C04.RunsIn.pairwise h).2 r hr).2.1
+
+/-- `if region_end: seq_regions.append((region_start, region_end))` -/
+def closeReg (t : RegState) : List (Int × Int) :=
+  match t.2.1 with
+  | some r => if r ≠ 0 then t.2.2 ++ [(t.1, r)] else t.2.2
+  | none => t.2.2
+
+theorem closeReg_lt (t : RegState) (h : RegInv t) : ∀ p ∈ closeReg t, p.1 < p.2 := by
+  obtain ⟨rs, re, regs⟩ := t
+  intro p hp
+  unfold closeReg at hp
+  cases re with
+  | none => exact h.2 p hp
+  | some r =>
+    simp only at hp
+    split at hp
+    · rcases List.mem_append.mp hp with hp | hp
+      · exact h.2 p hp
+      · simp only [List.mem_singleton] at hp
+        subst hp
+        exact h.1 r rfl
+    · exact h.2 p hp
+
+/-! ### `store_info`: the row loop -/
+
+theorem gapType_eq : ("scaffold".toList : Str) = Gen.fastaGapType := by decide
+
+/-- one pass of `for region in seq_regions:` on `(scffld, nextOid, prev)` -/
+def rowStep (name : Str) (t : Scaffold × Nat × (Int × Int)) (region : Int × Int) : Scaffold × Nat × (Int × Int) :=
+  let sc : Scaffold :=
+    if region.1 ≠ t.2.2.2 then
+      { t.1 with rows := t.1.rows ++ [Row.gap { length := region.1 - t.2.2.2, gapType := Gen.fastaGapType }] }
+    else t.1
+  ({ sc with rows := sc.rows ++ [Row.frag { oid := t.2.1, name := name, start := region.1 + 1, stop := region.2,
+                                             strand := 1, tags := [] }] }, t.2.1 + 1, region)
+
+theorem mkFragment_ok (oid : Nat) (name : Str) (s e : Int) (h : s < e) :
+    mkFragment oid name (s + 1) e 1 [] = .ok { oid := oid, name := name, start := s + 1, stop := e, strand := 1, tags := [] } := by
+  unfold mkFragment
+  rw [if_neg (by decide), if_neg (by omega)]
+
+theorem foldl_rowStep (name : Str) (regs : List (Int × Int)) :
+    ∀ (sc : Scaffold) (oid : Nat) (prev : Int × Int),
+      (regs.foldl (rowStep name) (sc, oid, prev)).1 = { sc with rows := sc.rows ++ (regionRows name oid prev.2 regs).1 } ∧
+      (regs.foldl (rowStep name) (sc, oid, prev)).2.1 = (regionRows name oid prev.2 regs).2.1 ∧
+      (regs.foldl (rowStep name) (sc, oid, prev)).2.2.2 = (regionRows name oid prev.2 regs).2.2 := by
+  induction regs with
+  | nil => intro sc oid prev; simp [regionRows]
+  | cons r rest ih =>
+    intro sc oid prev
+    obtain ⟨s, e⟩ := r
+    simp only [List.foldl_cons, regionRows]
+    obtain ⟨h1, h2, h3⟩ := ih (rowStep name (sc, oid, prev) (s, e)).1 (oid + 1) (s, e)
+    have hstep : rowStep name (sc, oid, prev) (s, e) = ((rowStep name (sc, oid, prev) (s, e)).1, oid + 1, (s, e)) := rfl
+    rw [hstep, h1, h2, h3]
+    refine ⟨?_, rfl, rfl⟩
+    simp only [rowStep]
+    by_cases hs : s ≠ prev.2
+    · simp only [hs, if_true, ne_eq, not_false_eq_true, List.append_assoc]
+    · simp only [hs, if_false, List.append_assoc, List.nil_append]
+
+/-! ### the model side in the shape of the source -/
+
+theorem processSeqBuffer_eq (st : IdxState) : processSeqBuffer st =
+    { st with
+      regionStart := ((acgtRuns 0 none st.buffer).foldl (mergeRun st.seqLength) (st.regionStart, st.regionEnd, st.seqRegions)).1,
+      regionEnd := ((acgtRuns 0 none st.buffer).foldl (mergeRun st.seqLength) (st.regionStart, st.regionEnd, st.seqRegions)).2.1,
+      seqRegions := ((acgtRuns 0 none st.buffer).foldl (mergeRun st.seqLength) (st.regionStart, st.regionEnd, st.seqRegions)).2.2,
+      seqLength := st.seqLength + st.buffer.length, buffer := [] } := rfl
+
+/-- the state `store_info()` leaves, given the region triple `t` that `process_seq_buffer()` computed -/
+def stored (st : IdxState) (t : RegState) : IdxState :=
+  let name := st.name.getD []
+  let L := st.seqLength + st.buffer.length
+  let rr := regionRows name st.nextOid 0 (closeReg t)
+  { st with
+    regionStart := t.1, regionEnd := t.2.1, seqLength := L, buffer := [],
+    seqRegions := closeReg t,
+    idx := st.idx ++ [(name, { length := L, fileOffset := st.fileOffset, rpl := st.rpl.getD 0,
+                               mll := st.rpl.getD 0 + st.lineEndBytes })],
+    scaffolds := st.scaffolds ++ [{ name := name, rows := if L - rr.2.2 ≠ 0 then rr.1 ++ [Row.gap { length := L - rr.2.2, gapType := Gen.fastaGapType }] else rr.1 }],
+    nextOid := rr.2.1 }
+
+theorem storeInfo_eq (st : IdxState) : storeInfo st =
+    if (dGet? st.idx (st.name.getD [])).isSome then .error .value
+    else .ok (stored st ((acgtRuns 0 none st.buffer).foldl (mergeRun st.seqLength) (st.regionStart, st.regionEnd, st.seqRegions))) := by
+  unfold storeInfo
+  rw [processSeqBuffer_eq]
+  generalize (acgtRuns 0 none st.buffer).foldl (mergeRun st.seqLength) (st.regionStart, st.regionEnd, st.seqRegions) = t
+  obtain ⟨rs, re, regs⟩ := t
+  simp only [bind, Except.bind, pure, Except.pure, dHas]
+  by_cases hd : (dGet? st.idx (st.name.getD [])).isSome = true
+  · simp only [hd, if_true]; rfl
+  · simp only [hd, Bool.false_eq_true, if_false]
+    rfl
+
+/-! ### the invariant -/
+
+structure Inv (st : IdxState) : Prop where
+  nameNe : ∀ n, st.name = some n → n ≠ []
+  rplSome : ∀ n, st.name = some n → ∃ r, st.rpl = some r
+  lebPos : ∀ n, st.name = some n → 0 < st.lineEndBytes
+  reg : RegInv (st.regionStart, st.regionEnd, st.seqRegions)
+
+theorem inv_init : Inv {} := by
+  refine ⟨?_, ?_, ?_, ⟨?_, ?_⟩⟩ <;> intro _ h <;> cases h
+
+theorem Inv.fold {st : IdxState} (h : Inv st) :
+    RegInv ((acgtRuns 0 none st.buffer).foldl (mergeRun st.seqLength) (st.regionStart, st.regionEnd, st.seqRegions)) :=
+  foldl_mergeRun_inv _ _ (acgtRuns_pos _) _ h.reg
+
+theorem Inv.processSeqBuffer {st : IdxState} (h : Inv st) : Inv (processSeqBuffer st) := by
+  rw [processSeqBuffer_eq]
+  exact ⟨h.nameNe, h.rplSome, h.lebPos, h.fold⟩
+
+theorem Inv.pos {st : IdxState} (h : Inv st) (p : Int) : Inv { st with pos := p } :=
+  ⟨h.nameNe, h.rplSome, h.lebPos, h.reg⟩
+
 end AgpTpf.ImpIndex
